@@ -37,7 +37,7 @@ func init() {
 	register(&Prop{
 		ID:         "C09",
 		Title:      "The expression front end is total and strict",
-		Decided:    "absence of run-time faults, progress, and the parser's acceptance condition, over every function of interpreter and interpreter/language reachable from Language.Match/Update: (R1) every single-result type assertion is dominated by facts that establish the asserted dynamic type (type-tag tests, matchTypes, same-type classes, type switches, earlier comma-ok, facts established at all call sites, constant-specialised callee results); (R2) every slice/string index and slice expression is bounded: range/count-down loop indices, constant indices under an established length, two-sided guards – three sites rest on named assumptions; (R3) nil discipline: every nil result of a parse function is accompanied by a recorded error, both entry points either assign the parsed expression or record an error on every path, and Match/Update test the parser's errors before evaluating; (R4) every loop either iterates over a finite container / counts, or consumes input on every cycle; (R5) every recursive cycle contains a progressing edge (a token consumed before the call, or an argument that is a strict sub-term of a parameter, or a visited-set guard); (R6) strictness: the whole input must be one sentence – a second sentence records an error; (R7) an evaluation error object always becomes an error return of Match/Update; (R9) a malformed operand is only noticed when it is evaluated: every node evaluator evaluates all its operands, and every member of a list operand, before it returns a non-error result (= C16.R8); (R8) wherever the parser builds an identifier node from the current token by a direct call (operands of BETWEEN, path members) the token kind has just been checked (expectPeek(IDENT) or an equivalent test) – otherwise an operator, a parenthesis or the end of input is taken for a name and a non-sentence is evaluated; and the lexer produces the end-of-input token only under a test of its position against the input length, so a NUL byte inside the expression does not cut it short; (R10) the lexer's whitespace skipper is evaluated for each of the 256 byte values: it must skip space, tab, CR and LF and nothing else – any other byte it swallows (vertical tab, form feed, 0x85, 0xA0) is an unknown character accepted inside an expression; a skipper that calls out (unicode.IsSpace) cannot be evaluated and is reported.",
+		Decided:    "absence of run-time faults, progress, and the parser's acceptance condition, over every function of interpreter and interpreter/language reachable from Language.Match/Update: (R1) every single-result type assertion is dominated by facts that establish the asserted dynamic type (type-tag tests, matchTypes, same-type classes, type switches, earlier comma-ok, facts established at all call sites, constant-specialised callee results); (R2) every slice/string index and slice expression is bounded: range/count-down loop indices, constant indices under an established length, two-sided guards – three sites rest on named assumptions; (R3) nil discipline: every nil result of a parse function is accompanied by a recorded error, both entry points either assign the parsed expression or record an error on every path, and Match/Update test the parser's errors before evaluating; (R4) every loop either iterates over a finite container / counts, or consumes input on every cycle; (R5) every recursive cycle contains a progressing edge (a token consumed before the call, or an argument that is a strict sub-term of a parameter, or a visited-set guard); (R6) strictness: the whole input must be one sentence – a second sentence records an error; (R7) an evaluation error object always becomes an error return of Match/Update; (R9) a malformed operand is only noticed when it is evaluated: every node evaluator evaluates all its operands, and every member of a list operand, before it returns a non-error result (= C16.R8); (R8) wherever the parser builds an identifier node from the current token by a direct call (operands of BETWEEN, path members) the token kind has just been checked (expectPeek(IDENT) or an equivalent test) – otherwise an operator, a parenthesis or the end of input is taken for a name and a non-sentence is evaluated; and the lexer produces the end-of-input token only under a test of its position against the input length, so a NUL byte inside the expression does not cut it short; (R10) the lexer's whitespace skipper is evaluated for each of the 256 byte values: it must skip space, tab, CR and LF and nothing else – any other byte it swallows (vertical tab, form feed, 0x85, 0xA0) is an unknown character accepted inside an expression; a skipper that calls out (unicode.IsSpace) cannot be evaluated and is reported; (R11) SET stores a copy of its operand (= C07.R11): no self-containing document, serialisation terminates; (R12) the section parser of update clauses returns a list only on paths where the next token was tested to be EOF; (R13) error objects propagate to the top of the evaluation (= C16.R10).",
 		NotDecided: "that every ungrammatical string is rejected by the inner productions (R3/R6 decide the top-level acceptance condition and 'nil implies error'); stack depth for deeply nested but finite inputs; arithmetic overflow in list indexes converted from float64.",
 		Assumes:    []string{"objects and AST nodes are finite acyclic trees built from finite inputs (structural-descent recursion terminates)", "Lexer.readPosition/position are only ever increased from zero (verified: the only stores are in readChar)"},
 		Rules: []RuleDef{
@@ -51,6 +51,9 @@ func init() {
 			{ID: "R9", Desc: "strictness: every operand and every list member is evaluated before a non-error result (= C16.R8)", Run: aliasRule("R9", c16R8, nil)},
 			{ID: "R8", Desc: "the parser takes an identifier only from a token known to be one, and the lexer ends the input only at its end (T-GUARD)", Run: c09R8},
 			{ID: "R10", Desc: "the lexer skips exactly the four ASCII whitespace bytes (decision table over all 256 byte values)", Run: c09R10},
+			{ID: "R11", Desc: "SET stores a copy of whatever its right-hand side evaluates to (= C07.R11): a document never ends up containing itself, so serialising the result terminates", Run: aliasRule("R11", c07R11, nil)},
+			{ID: "R12", Desc: "an update clause section returns its actions only after the next token was tested to be the end of the input (T-DOM): a statement nested in a group is not a sentence", Run: c09R12},
+			{ID: "R13", Desc: "a rejected expression surfaces as an error: error objects produced during evaluation reach the top (= C16.R10)", Run: aliasRule("R13", c16R10, nil)},
 		},
 	})
 }
@@ -1735,4 +1738,67 @@ func parseGate(h *ssa.Function) bool {
 		}
 	}
 	return n > 0
+}
+
+// c09R12: an update statement is the whole input. The parser of a clause section (the Parser method that returns the
+// list of actions of SET/ADD/REMOVE/DELETE) hands back a list only on a path on which the NEXT token was tested to be the
+// end of the input: a section that is closed by something else – the `)` of a group it was opened in, say – is not a
+// sentence of the grammar ("(SET a = :x)" must be rejected, not applied).
+func c09R12(e *Engine) {
+	n := 0
+	for _, fn := range e.funcs("lang") {
+		if fn.Parent() != nil || fn.Signature.Recv() == nil {
+			continue
+		}
+		if nt := namedOf(fn.Signature.Recv().Type()); nt == nil || nt.Obj().Name() != "Parser" {
+			continue
+		}
+		res := fn.Signature.Results()
+		if res.Len() != 1 {
+			continue
+		}
+		sl, ok := res.At(0).Type().Underlying().(*types.Slice)
+		if !ok || !strings.HasSuffix(typeName(sl.Elem()), "Expression") {
+			continue
+		}
+		takesToken := false
+		for _, p := range fn.Params {
+			if strings.HasSuffix(typeName(p.Type()), "language.Token") {
+				takesToken = true
+			}
+		}
+		if !takesToken {
+			continue
+		}
+		n++
+		construct := e.fname(fn) + ":section-ends-the-input"
+		bad := ""
+		for _, r := range returnsOf(fn) {
+			if isNilConst(retVals(r)[0]) {
+				continue
+			}
+			eofChecked := false
+			for _, cd := range condsAt(r.Block()) {
+				cd = normCond(cd)
+				c, isCall := cd.V.(*ssa.Call)
+				if !isCall || !cd.Val || c.Call.StaticCallee() == nil || len(c.Call.Args) != 2 {
+					continue
+				}
+				if s, isK := constString(c.Call.Args[1]); isK && s == "EOF" {
+					eofChecked = true
+				}
+			}
+			if !eofChecked {
+				bad = e.ipos(r)
+			}
+		}
+		if bad != "" {
+			e.fail("R12", construct, bad, "the section parser returns its actions on a path on which the next token was not tested to be the end of the input: an update statement wrapped in parentheses (or followed by a closing token of an enclosing construct) is accepted and applied")
+		} else {
+			e.pass("R12", construct, e.pos(fn.Pos()), "actions are returned only after the next token was tested to be EOF")
+		}
+	}
+	if n == 0 {
+		e.undecided("R12", "lang:section-parser", "-", "the parser of update clause sections was not found")
+	}
 }
